@@ -221,6 +221,23 @@ def tokenFor (spec : Spec) (s : Nat → Nat) (tokOff : Nat) : List Nat :=
   | .explicit b => b
   | .synth pre len => pre ++ takeStream s tokOff (tokenLength pre len - pre.length)
 
+/-! ### the caller's Config across dials (`UTransport.dial`) -/
+
+/-- the part of a `quic.Config` the spec can override: the token source (`none` = `Config.TokenStore == nil`) -/
+structure UserConf where
+  tokenStore : TokenCfg := .none
+deriving Repr, BEq, DecidableEq
+
+/-- `UTransport.dial`: `populateConfig` makes the connection's private copy FIRST, then `QUICSpec.UpdateConfig`
+    installs the spec's token source into that copy (a spec without token settings leaves it alone).
+    Returns (the caller's Config after the dial, the connection's Config). -/
+def dialConf (user : UserConf) (spec : Spec) : UserConf × UserConf :=
+  (user, match spec.token with | .none => user | t => { tokenStore := t })
+
+/-- the caller's Config after a sequence of dials through arbitrary specs -/
+def afterDials (user : UserConf) (specs : List Spec) : UserConf :=
+  specs.foldl (fun u sp => (dialConf u sp).1) user
+
 /-! ### long header -/
 
 /-- `ExtendedHeader.GetLength` for an Initial packet -/
